@@ -9,6 +9,8 @@ THEOREMS = [
     'Sbepp.Properties.C19.visit_events',
     'Sbepp.Properties.C19.visit_cursor_at_end',
     'Sbepp.Properties.C19.visit_stops',
+    'Sbepp.Properties.C19.visit_tree_is_scan',
+    'Sbepp.Properties.C19.visit_stops_tree',
     'Sbepp.Properties.C19.set_visit',
     'Sbepp.Properties.C19.enum_visit',
     'Sbepp.parseL_flatten',
